@@ -595,8 +595,11 @@ static void checkConfiguration(World& w, int i, const Op& op, const Obs& before,
 	Resolve r(sh, h.op, cb);
 	int nReal = 0;
 	std::vector<int> touched(size_t(sh.n), 0);   // by how many requests a region's choice may have been evaluated
+	std::vector<int> reqBeforeLast; std::vector<int> howBeforeLast;   // expectations before the last real request was applied
+	int lastReal = -1; for (size_t k = 0; k < st.approved.size(); ++k) if (st.approved[k].kind != K_SCHEDULE) lastReal = int(k);
 	for (size_t k = 0; k < st.approved.size(); ++k) {
 		const Tr& q = st.approved[k];
+		if (int(k) == lastReal) { reqBeforeLast = r.req; howBeforeLast = r.how; }
 		if (q.kind != K_SCHEDULE && q.dest >= 0 && q.dest < sh.n) {
 			// scope: the sub-tree below the first region where the path leaves the configuration expected so far
 			int root = q.dest, c = q.dest;
@@ -627,7 +630,23 @@ static void checkConfiguration(World& w, int i, const Op& op, const Obs& before,
 		for (int x = q.dest; x >= 0; x = sh.st[size_t(x)].parent)
 			if (!s.obs.active[size_t(x)]) {
 				std::snprintf(b, sizeof b, "%s: %s(%d) was approved (last of %zu) but state %d on its path is not active afterwards", h.role.c_str(), kindName(q.kind), q.dest, st.approved.size(), x);
-				w.violate("C02.destination_active", b, i, nReal > 1 ? "batch_later_request_not_overriding" : ""); return;
+				// documented pattern: the library stops climbing at the first ancestor (above the nearest one) whose current sub-state already lies on the
+				// path and that no earlier request re-targeted -- and therefore misses a conflicting earlier request higher up. Utility evaluation of an
+				// earlier request leaving requests behind is the second documented pattern.
+				std::string tag;
+				if (nReal > 1 && !reqBeforeLast.empty()) {
+					std::vector<std::pair<int,int>> path; int c = q.dest;
+					for (int p = sh.st[size_t(q.dest)].parent; p >= 0; c = p, p = sh.st[size_t(p)].parent) if (sh.isCompo(p)) path.emplace_back(p, sh.st[size_t(c)].prong);
+					int stop = -1;
+					for (size_t lv = 1; lv < path.size(); ++lv) {
+						const int rq = reqBeforeLast[size_t(path[lv].first)];
+						if ((rq < 0 || rq == path[lv].second) && cb.active[size_t(path[lv].first)] == path[lv].second) { stop = int(lv); break; }
+					}
+					if (stop >= 0) for (size_t lv = size_t(stop) + 1; lv < path.size(); ++lv) { const int rq = reqBeforeLast[size_t(path[lv].first)]; if (rq >= 0 && rq != path[lv].second) tag = "batch_later_request_not_overriding"; }
+					bool earlierUtility = false; for (int k2 = 0; k2 < lastReal; ++k2) if (st.approved[size_t(k2)].kind == K_UTILIZE || st.approved[size_t(k2)].kind == K_RANDOMIZE) earlierUtility = true;
+					if (tag.empty() && (earlierUtility || sh.usesUtility)) { for (auto& pc : path) if (reqBeforeLast[size_t(pc.first)] >= 0 && howBeforeLast[size_t(pc.first)] != 100) tag = "batch_later_request_not_overriding"; }
+				}
+				w.violate("C02.destination_active", b, i, tag); return;
 			}
 		break;
 	}
@@ -647,7 +666,10 @@ static void checkConfiguration(World& w, int i, const Op& op, const Obs& before,
 		if (isUtil && std::find(r.alts[size_t(g)].begin(), r.alts[size_t(g)].end(), ca.active[size_t(g)]) != r.alts[size_t(g)].end()) { w.probe("utility_within_rounding"); continue; }
 		if (r.conflict[size_t(g)] || touched[size_t(g)] > 1) {
 			std::snprintf(b, sizeof b, "%s: region %d: requests of one batch disagree; the later one prescribes sub-state %d but %d is active", h.role.c_str(), g, r.req[size_t(g)], ca.active[size_t(g)]);
-			w.violate(oracle, b, i, "batch_later_request_not_overriding"); return;
+			// documented: a region an earlier request already resolved (as a sibling, by evaluation, or as its destination) is forwarded to, not re-resolved
+			const bool earlierResolved = !reqBeforeLast.empty() && reqBeforeLast[size_t(g)] >= 0 && howBeforeLast[size_t(g)] != 100;
+			const bool earlierEvaluated = touched[size_t(g)] > 1 && (sh.usesUtility || nReal > 1);
+			w.violate(oracle, b, i, (earlierResolved || earlierEvaluated) && r.how[size_t(g)] != 100 ? "batch_later_request_not_overriding" : ""); return;
 		}
 		// a destination region that is already active below an orthogonal parent is not re-targeted by the library (documented)
 		std::string tag;
